@@ -45,6 +45,9 @@ def run(ctx):
 
     ctx.each(shapes.copy_hook_rule, ctx, repo, "R08h")
     ctx.each(r08i, ctx, repo)
+    from .c01 import r01b
+
+    ctx.each(r01b, ctx, repo, T)  # links are registered on compartments only by Link.create: a copy that re-registers them elsewhere changes their order
 
 
 COPY_CALLS = {"sc.dcp", "copy.deepcopy", "dcp", "deepcopy"}
@@ -340,3 +343,18 @@ def r08i(ctx, repo):
         rb = [c for c in ast.walk(r.node) if isinstance(c, ast.Call) and isinstance(c.func, ast.Attribute) and c.func.attr == "relink" and isinstance(c.func.value, ast.Name) and c.func.value.id[:1].isupper()]
         ctx.check(sorted(ast.unparse(c.func.value) for c in ub) == sorted(ast.unparse(c.func.value) for c in rb) and not any(branch_guards(enclosing_stmt(c), stop=r.node) for c in rb), "R08i", r, enclosing_stmt(rb[0]) if rb else r.node, "%s: base unlink and relink both called, unconditionally" % ci.name, "%s.unlink calls %s.unlink but relink calls %s.relink (or only conditionally): the base class's references are not restored" % (ci.name, [ast.unparse(c.func.value) for c in ub], [ast.unparse(c.func.value) for c in rb]), stmt_text="relink-base")
     ctx.require(n >= 6, "R08i: expected >= 6 unlink/relink pairs in model.py, found %d" % n)
+    # unlink / relink rebind fields, they never change a list in place: other objects hold the same list (a parameter's dependency on `comp:` flows is the
+    # compartment's own outlinks list), so clearing or appending inside unlink / relink silently edits what those objects see
+    MUT = {"clear", "append", "extend", "insert", "remove", "pop", "sort", "reverse", "update", "setdefault"}
+    for ci in repo.module("model").classes.values():
+        for name in ("unlink", "relink"):
+            fi = ci.methods.get(name)
+            if fi is None or ci.name == "Model":
+                continue
+            for c in own_nodes(fi.node):
+                if isinstance(c, ast.Call) and isinstance(c.func, ast.Attribute) and c.func.attr in MUT and isinstance(c.func.value, ast.Attribute):
+                    root = c.func.value
+                    while isinstance(root, (ast.Attribute, ast.Subscript)):
+                        root = root.value
+                    if isinstance(root, ast.Name) and root.id == fi.params[0]:
+                        ctx.fail("R08i", fi, enclosing_stmt(c), "%s.%s changes `%s` in place (`%s`): every other holder of that list (a dependent parameter's `deps`, a population's lookup) sees the change, and the order / content after a copy differs from the original" % (ci.name, name, ast.unparse(c.func.value), norm(enclosing_stmt(c))[:60]), stmt_text="inplace:%s" % ast.unparse(c.func.value))
